@@ -228,24 +228,38 @@ func Run(c Case) core.Result {
 	}
 	if c.Staller != "" {
 		res.Labels = append(res.Labels, "staller="+c.Staller)
-		st := cr.env.NewSess()
-		var spw *string
-		if c.Auth {
-			p := "pw:staller"
-			spw = &p
-		}
-		if r := st.Startup([][2]string{{"user", "staller"}}, spw); r.State == memnet.Idle {
-			lim := c.Cfg.Limit
-			if lim <= 0 {
-				lim = 1 << 24
-			}
+		switch c.Staller {
+		case "connected-silent", "startup-partial", "ssl-request-only":
+			// a client that has connected and sends nothing / half a start-up packet / an SSLRequest and
+			// then nothing: it keeps its own connection busy, nobody else's
+			x := cr.env.Dial()
 			switch c.Staller {
-			case "oversized-partial":
-				st.C.Send(pgwire.RawFrame('Q', uint32(lim+4+5000), []byte("stalled body")))
-			case "message-partial":
-				st.C.Send(pgwire.Query("select 1")[:7])
+			case "startup-partial":
+				x.Send(pgwire.Startup([][2]string{{"user", "staller"}})[:9])
+			case "ssl-request-only":
+				x.Send(pgwire.SSLRequest())
 			}
-			st.C.WaitIdle(script.Guard)
+			// (no waiting for quiescence here: where the server reads these bytes is its business)
+		default:
+			st := cr.env.NewSess()
+			var spw *string
+			if c.Auth {
+				p := "pw:staller"
+				spw = &p
+			}
+			if r := st.Startup([][2]string{{"user", "staller"}}, spw); r.State == memnet.Idle {
+				lim := c.Cfg.Limit
+				if lim <= 0 {
+					lim = 1 << 24
+				}
+				switch c.Staller {
+				case "oversized-partial":
+					st.C.Send(pgwire.RawFrame('Q', uint32(lim+4+5000), []byte("stalled body")))
+				case "message-partial":
+					st.C.Send(pgwire.Query("select 1")[:7])
+				}
+				st.C.WaitIdle(script.Guard)
+			}
 		}
 	}
 	if c.Schedule == nil {
@@ -287,6 +301,11 @@ func Run(c Case) core.Result {
 			buf := make([]byte, 2<<20)
 			dump := string(buf[:runtime.Stack(buf, true)])
 			for _, g := range strings.Split(dump, "\n\n") {
+				// the accept loop itself sits in a read of somebody's connection: nobody else is accepted
+				if strings.Contains(g, "psql-wire.(*Server).Serve(") && strings.Contains(g, "memnet.(*srvEnd).Read") {
+					cr.env.Stop()
+					return core.Fail("C15/isolation/accept-loop-blocked", "session %d gets no answer: the accept loop waits for the input of another connection (%s):\n%s", i, c.Staller, clip(g))
+				}
 				if strings.Contains(g, "jeroenrinzema/psql-wire") && (strings.Contains(g, "sync.(*Mutex).Lock") || strings.Contains(g, "sync.(*RWMutex).Lock") || strings.Contains(g, "sync.(*RWMutex).RLock")) {
 					cr.env.Stop()
 					return core.Fail("C15/isolation/blocked-by-other-connection", "session %d gets no answer: its goroutine waits for a lock while another connection (%s) is stalled:\n%s", i, c.Staller, clip(g))
